@@ -151,6 +151,10 @@ def _scenarios(prop, tier, seed=0):
         # the pool's only thread frees up with [stale entry of q1, q2] in the schedule: q2 must still be run
         L.append(S('c10_p1_stale_entry_r2', [T('A', ('desync', 0, GATE)), T('B', ('desync', 1), ('sync', 1), ('desync', 2), ('open_gate', 0))], pool_max=1, queues=3, R=2, B=34,
                    order=[0, 2, 1], oracles=BASE + ('independent',), witness='ungated_done'))
+        # two objects become pending while there is no pool thread at all; raising the maximum must start a thread for each of them: the first one
+        # blocks for good (its gate is never opened), the second must still run
+        L.append(S('c10_p0_raise_max', [T('A', ('desync', 0, GATE), ('desync', 1), ('set_max', 2))], pool_max=0, pool_slots=2, queues=2, setup='A!', R=2, B=16,
+                   oracles=BASE + ('independent',), witness='ungated_done'))
         if not q: L.append(S('c10_p2_stale_entry', [T('A', ('desync', 0, GATE)), T('B', ('desync', 1), ('sync', 1), ('desync', 2))], pool_max=2, queues=3, R=(2 if q else 3), B=18,
                    oracles=BASE + ('independent',), witness='ungated_done'))
         if not q:
@@ -288,11 +292,21 @@ def _scenarios(prop, tier, seed=0):
     elif prop == 'C11':
         OR11 = BASE + ('pipe_in', 'deadlock', 'memory')
         # gated items, pool of one; the producer thread W opens the gates (item arrival + wake-up) at solver-chosen points
-        L.append(S('c11_p1_one_item', [T('A', ('p_new', 'x'), ('pipe_in', 'x', {'gates': [0], 'ends': True})), T('W', ('open_gate', 0))],
-                   pool_max=1, queues=0, R=2, B=30, oracles=OR11))
-        L.append(S('c11_p1_drop_then_event', [T('A', ('p_new', 'x'), ('pipe_in', 'x', {'gates': [0], 'ends': False}), ('p_drop', 'x')), T('W', ('open_gate', 0))],
-                   pool_max=1, queues=0, R=2, B=40, oracles=OR11))
+        # quick tier: pipe_in (and the drop of the caller's reference) run as a deterministic prefix on the caller's thread, before the pool thread
+        # it spawned has started; the item arrivals, their wake-ups and the poll jobs they schedule are then interleaved freely (R rounds)
+        L.append(S('c11_p1_one_item_su', [T('A', ('p_new', 'x'), ('pipe_in', 'x', {'gates': [0], 'ends': True})), T('W', ('open_gate', 0))],
+                   pool_max=1, queues=0, setup='A!', R=(2 if q else 3), B=30, oracles=OR11))
+        L.append(S('c11_p1_two_items_su', [T('A', ('p_new', 'x'), ('pipe_in', 'x', {'gates': [0, 1], 'ends': True})), T('W', ('open_gate', 0), ('open_gate', 1))],
+                   pool_max=1, queues=0, setup='A!', R=(2 if q else 3), B=30, oracles=OR11))
+        L.append(S('c11_p1_drop_then_event_su', [T('A', ('p_new', 'x'), ('pipe_in', 'x', {'gates': [0], 'ends': False}), ('p_drop', 'x')), T('W', ('open_gate', 0))],
+                   pool_max=1, queues=0, setup='A!', R=(2 if q else 3), B=40, oracles=OR11))
+        L.append(S('c11_p1_item_and_sync_su', [T('A', ('p_new', 'x'), ('pipe_in', 'x', {'gates': [99, 0], 'ends': False}), ('wait_gate', 5), ('d_sync', 'x')), T('W', ('open_gate', 5), ('open_gate', 0))],
+                   pool_max=1, queues=0, setup='A!', R=(2 if q else 3), B=30, oracles=OR11))
         if not q:
+            L.append(S('c11_p1_one_item', [T('A', ('p_new', 'x'), ('pipe_in', 'x', {'gates': [0], 'ends': True})), T('W', ('open_gate', 0))],
+                       pool_max=1, queues=0, R=2, B=30, oracles=OR11))
+            L.append(S('c11_p1_drop_then_event', [T('A', ('p_new', 'x'), ('pipe_in', 'x', {'gates': [0], 'ends': False}), ('p_drop', 'x')), T('W', ('open_gate', 0))],
+                       pool_max=1, queues=0, R=2, B=40, oracles=OR11))
             L.append(S('c11_p1_two_items', [T('A', ('p_new', 'x'), ('pipe_in', 'x', {'gates': [0, 1], 'ends': True})), T('W', ('open_gate', 0), ('open_gate', 1))],
                        pool_max=1, queues=0, R=2, B=34, oracles=OR11))
             L.append(S('c11_p1_item_and_sync', [T('A', ('p_new', 'x'), ('pipe_in', 'x', {'gates': [99, 0], 'ends': False}), ('d_sync', 'x')), T('W', ('open_gate', 0))],
@@ -302,17 +316,26 @@ def _scenarios(prop, tier, seed=0):
         # one input item that is ready at once, then the end of the input: the consumer (hand-polled task on the caller's thread) races the producing job
         L.append(S('c12_p1_ready_item', [T('A', ('p_new', 'x'), ('pipe', 'x', {'gates': [99], 'ends': True, 'as': 'ps'}), ('s_next', 'ps'), ('s_next', 'ps'))],
                    pool_max=1, queues=0, R=2, B=34, oracles=OR12))
+        # back-pressure: buffer depth 1, two items (arriving after the depth was set) then the end of the input; the producing job is throttled after the first output (set-up
+        # prefix: the pipe is created, item 0 arrives and is processed, item 1 arrives and its poll job finds the buffer full and parks), then the consumer's reads race the producer's
+        # resumption ("the consumer polling while the producer is between 'buffer full' and 'register for release'" is inside the rounds that follow
+        # each release)
+        L.append(S('c12_p1_backpressure_su', [T('A', ('p_new', 'x'), ('pipe', 'x', {'gates': [0, 1], 'ends': True, 'as': 'ps', 'depth': 1}), ('wait_gate', 5), ('s_next', 'ps'), ('s_next', 'ps'), ('s_next', 'ps')),
+                                              T('W', ('open_gate', 0)), T('V', ('open_gate', 1), ('open_gate', 5))], pool_max=1, queues=0, setup='A! W! P0! V! P0!', R=(2 if q else 3), B=30, oracles=OR12))
         if not q:
             L.append(S('c12_p1_one_item', [T('A', ('p_new', 'x'), ('pipe', 'x', {'gates': [0], 'ends': True, 'as': 'ps'}), ('s_next', 'ps'), ('s_next', 'ps')), T('W', ('open_gate', 0))],
                        pool_max=1, queues=0, R=2, B=34, oracles=OR12))
     elif prop == 'C16':
         OR16 = BASE + ('pipe_closed', 'deadlock', 'memory')
         # the input yields one item and then stays silent; the caller drops its own reference and then the output stream
-        L.append(S('c16_p1_drop_output', [T('A', ('p_new', 'x'), ('pipe', 'x', {'gates': [99], 'ends': False, 'as': 'ps'}), ('p_drop', 'x'), ('s_drop', 'ps'))],
-                   pool_max=1, queues=0, R=2, B=40, oracles=OR16))
-        # the output is dropped while a second poll job (woken by item 0 arriving) is in the middle of its loop; the input then stays silent (gate 5 is never opened)
-        L.append(S('c16_p1_drop_midloop', [T('A', ('p_new', 'x'), ('pipe', 'x', {'gates': [0, 5], 'ends': False, 'as': 'ps'}), ('s_drop', 'ps'), ('p_drop', 'x')), T('W', ('open_gate', 0))],
-                   pool_max=1, queues=0, seq='A P0 A W P0 A P0', B=44, oracles=OR16))
+        # set-up prefix: the caller creates the pipe and drops its own reference before the pool thread starts; the drop of the output then races the
+        # producing poll job (idle and registered with the input / mid-loop), the input staying silent afterwards
+        L.append(S('c16_p1_drop_output_su', [T('A', ('p_new', 'x'), ('pipe', 'x', {'gates': [99], 'ends': False, 'as': 'ps'}), ('p_drop', 'x'), ('wait_gate', 5), ('s_drop', 'ps')), T('W', ('open_gate', 5))],
+                   pool_max=1, queues=0, setup='A!', R=(2 if q else 3), B=30, oracles=OR16))
+        # the producer is throttled by back-pressure (depth 1: item 0 buffered, the poll job woken by item 1 found the buffer full and registered
+        # for release) when the output is dropped; the input stays silent afterwards
+        L.append(S('c16_p1_drop_throttled_su', [T('A', ('p_new', 'x'), ('pipe', 'x', {'gates': [0, 1], 'ends': False, 'as': 'ps', 'depth': 1}), ('wait_gate', 5), ('s_drop', 'ps'), ('p_drop', 'x')),
+                                                T('W', ('open_gate', 0)), T('V', ('open_gate', 1), ('open_gate', 5))], pool_max=1, queues=0, setup='A! W! P0! V! P0!', R=2, B=34, oracles=OR16))
     return L
 
 
